@@ -191,6 +191,10 @@ def gen_table(rnd):
         for l in loci:
             l['owner'] += 1
         procs = [{'events': [], 'setup': [['postrep', 0.0, rnd.choice([0.25, 0.5]), len(progs) - 1]]}] + procs
+    if rnd.random() < 0.3:
+        # a component registering its events WITHOUT names (several unnamed events on one locus are distinct events)
+        for ev in rnd.choice(procs)['events']:
+            ev['unnamed'] = True
     return {'maxtime': rnd.choice([1.0, 2.0, 3.0]), 'loci': loci, 'procs': procs, 'progs': progs}
 
 
@@ -198,7 +202,7 @@ def gen_compart(rnd, i):
     model = STOCH_MODELS[i % len(STOCH_MODELS)]
     c = compart.gen_case(rnd, model=model, dynamics='stochastic')
     c['kind'] = 'compart'
-    c['prerun'] = bool(c.get('vi_override'))       # only together with an overridden initialInfectivities
+    c['prerun'] = bool(c.get('vi_override')) or rnd.random() < 0.3       # an earlier run on the same objects
     c['inst'] = [None, 'a', None][(i // len(STOCH_MODELS)) % 3]
     c['seq'] = (i // (3 * len(STOCH_MODELS))) % 2 == 1 or rnd.random() < 0.2
     if rnd.random() < 0.3:
@@ -285,7 +289,7 @@ def expected_rates(case, obs, step):
         for pi, p in enumerate(tb['procs']):
             for j, ev in enumerate(p['events']):
                 n = len(loci['L%d' % ev['locus']])
-                out.append(('L%d' % ev['locus'], 'ev%d_%d' % (pi, j), Fraction(ev['p']) * n if ev['kind'] == 'elem' else Fraction(ev['p'])))
+                out.append(('L%d' % ev['locus'], None if ev.get('unnamed') else 'ev%d_%d' % (pi, j), Fraction(ev['p']) * n if ev['kind'] == 'elem' else Fraction(ev['p'])))
         return out
     regs = obs.get('registration') or {}
     for pi in sorted(regs):
@@ -448,7 +452,8 @@ class H(Harness):
         for i in range(nc):
             base.append(gen_compart(rnd, i))
         for i in range(n - nc):
-            base.append({'kind': 'table', 'table': gen_table(rnd), 'dynamics': 'stochastic', 'seed': rnd.randrange(1 << 30)})
+            base.append({'kind': 'table', 'table': gen_table(rnd), 'dynamics': 'stochastic', 'seed': rnd.randrange(1 << 30),
+                         'prerun': rnd.choice([False, False, True, 'vary'])})
         out = list(base)
         for c in base:
             if rnd.random() < 0.34:
